@@ -436,7 +436,16 @@ def str_method(eng, st, recv: V, name: str, args: list[Val], origin: str) -> Val
     if name in ("strip", "lstrip", "rstrip") and not args:
         f = d.fun("py_" + name, [smt.STR], smt.STR)
         eng.ensure_axioms("py_" + name)
-        return V(STR, f(s))
+        r = f(s)
+        if "q_" not in r.s:  # library facts: stripping only removes characters at the ends
+            if name == "rstrip":
+                d.ground_axiom("rstrip.prefix", smt.PrefixOf(r, s))
+            elif name == "lstrip":
+                d.ground_axiom("lstrip.suffix", smt.SuffixOf(r, s))
+            else:
+                d.ground_axiom("strip.contained", smt.Contains(s, r))
+            d.ground_axiom(name + ".len", Le(Len(r), Len(s)))
+        return V(STR, r)
     if name == "encode":
         return V(STR, s)  # bytes are modelled by the text plus the blen() spec function
     if name == "count" and len(args) == 1:
@@ -460,7 +469,17 @@ def str_method(eng, st, recv: V, name: str, args: list[Val], origin: str) -> Val
         f = d.fun("py_split", [smt.STR, smt.STR], smt.SeqS(smt.STR))
         eng.ensure_axioms("py_split")
         eng.may_raise(st, Gt(Len(sep), IntVal(0)), "ValueError", origin)
-        return V(TSeq(STR), f(s, sep))
+        res = f(s, sep)
+        if "q_" not in res.s:
+            # library facts about str.split: at least one piece; the first piece is the text before the first
+            # separator (a prefix of s free of the separator); no separator -> the whole string
+            first = At(res, IntVal(0))
+            d.ground_axiom("split.nonempty", Implies(Gt(Len(sep), IntVal(0)), Ge(Len(res), IntVal(1))))
+            d.ground_axiom("split.first_prefix", Implies(Gt(Len(sep), IntVal(0)),
+                                                        And(smt.PrefixOf(first, s), Not(smt.Contains(first, sep)))))
+            d.ground_axiom("split.no_sep", Implies(And(Gt(Len(sep), IntVal(0)), Not(smt.Contains(s, sep))),
+                                                   Eq(res, smt.Unit(s))))
+        return V(TSeq(STR), res)
     if name == "join" and len(args) == 1:
         f = d.fun("py_join", [smt.STR, smt.SeqS(smt.STR)], smt.STR)
         return V(STR, f(s, coerce(eng, args[0], TSeq(STR)).t))
